@@ -518,8 +518,8 @@ def run(ctx):
         case = dict(params=list(w["params"]), jobs=[list(j) for j in w["jobs"]])
         r = exec_case(ctx, case, script=w["script"], split=True, tags=dict(kind="witness-" + w["name"]))
         recs.append(r)
-        if MODEL_CFG == "cur":
-            ctx.expect_known(w["signature"], not r["ok"], r["full"], "witness " + w["name"])
+        if MODEL_CFG == "cur" and r["ok"]:      # the model of the code as found says this schedule fails
+            ctx.expect_known(w["signature"], False, r["full"], "witness " + w["name"])
     # 2. random pre-emption-bounded schedules
     n = ctx.n(150, 2500)
     for i in range(n):
